@@ -74,18 +74,21 @@ def fn_for_line(meta, text_lines, ln):
     return None, False
 
 
-def run_unit(unit, ext, tier="quick", seed=0, keep=True):
+def run_unit(unit, ext, tier="quick", seed=0, keep=True, _drop_hints=()):
     r = UnitResult(unit)
     outdir = os.path.join(vunit.BUILD, "units")
     os.makedirs(outdir, exist_ok=True)
     try:
         extract.clear_cache()
-        text, meta = vunit.generate(unit, probe=False)
-        ptext, pmeta = vunit.generate(unit, probe=True)
+        text, meta = vunit.generate(unit, probe=False, drop_hints=_drop_hints)
+        ptext, pmeta = vunit.generate(unit, probe=True, drop_hints=_drop_hints)
     except ExtractError as e:
         r.undecided.append(str(e))
         return r
     r.meta = meta
+    r._drop = set(_drop_hints)
+    for fn in sorted(_drop_hints):
+        meta["lost_hints"].append({"fn": fn, "anchors": ["(all proof hints of the function dropped: their text no longer compiled against the changed code)"]})
     if isinstance(ext, dict) and "_deps" not in ext:
         ext = ext.get(meta["header"].get("features", ""))  # rlib set built with the unit's cargo features
     main_path = os.path.join(outdir, unit + ".rs")
@@ -110,6 +113,23 @@ def run_unit(unit, ext, tier="quick", seed=0, keep=True):
     r.wall = res.get("wall_s", 0)
     tl = text.split("\n")
     _collect(r, res, meta, tl)
+    if not _drop_hints:
+        # compile errors located inside extracted functions (typically a proof hint mentioning a local that the
+        # changed code no longer has): retry ONCE with the hints of exactly those functions dropped
+        culprits = set()
+        all_in_fns = True
+        for d in res.get("diags", []):
+            if vunit.classify(d) != "other":
+                continue
+            hit = False
+            for (ls, le, prim, label) in vunit.diag_lines(d):
+                fn, extracted = fn_for_line(meta, tl, ls)
+                if fn and extracted:
+                    culprits.add(fn.split("::")[-1])
+                    hit = True
+            all_in_fns = all_in_fns and hit
+        if culprits and all_in_fns:
+            return run_unit(unit, ext, tier, seed, keep, _drop_hints=tuple(sorted(culprits)))
     # seeds (thorough): an obligation that flips between seeds is UNDECIDED, not a violation
     if tier == "thorough":
         for extra_res in results[(2 if pmeta["probes"] else 1):]:
